@@ -254,8 +254,9 @@ def run(chk):
         'strtod/strtol follow their C contract (see convert_to obligations)',
     ]
     chk.not_covered += [
-        'layout independence proper (block order, case, comments, whitespace, float spellings): '
-        'SLHAea::Coll/Block/Line over std::vector<std::string> and Boost string algorithms are not encoded',
+        'layout independence of the text layer: splitting a line into tokens (SLHAea::Line::str), case folding of block names '
+        'and float spellings are not encoded (std::vector<std::string> and Boost string algorithms); block selection and '
+        'line classification are decided on contract models of the containers (C13d, C13e)',
     ]
     processors(chk, mod)
     from . import C13b
